@@ -2,7 +2,7 @@
 (* C13, second half: a SPARQL query returns exactly the solutions that evaluating it over the triple set yields.
    Executable definition of the SPARQL algebra (W3C SPARQL 1.1 Query, section 18) for the core the property lists -
    basic graph patterns, joins on shared variables, FILTER, OPTIONAL, UNION, projection, DISTINCT, ORDER BY, LIMIT, COUNT( * ) -
-   plus INSERT DATA / DELETE DATA as the transitions of the data set.  TLC evaluates it for every recorded
+   plus INSERT DATA / DELETE DATA, DELETE WHERE, DELETE-INSERT-WHERE and CLEAR as the transitions of the data set.  TLC evaluates it for every recorded
    (data set, query) and compares with the rows the engine returned (bags; sets under DISTINCT).
 
    Terms are small integers (the harness maps them to IRIs / plain strings / integers and back):
@@ -78,6 +78,16 @@ EvalElems(D, es, i, acc) ==
                                SelectSeq(acc, LAMBDA m : ~\E j \in DOMAIN R : Compatible(m, R[j]) /\ (DOMAIN m \cap DOMAIN R[j]) # {})
            \* VALUES ?v { c1 c2 ... }: a join with inline solutions
            [] e.k = "values" -> Join(acc, [j \in DOMAIN e.cs |-> (e.v :> e.cs[j])]))
+\* ---- updates (SPARQL 1.1 Update, 3.1.3 DELETE/INSERT): the WHERE group is evaluated once over D; every solution
+\* instantiates the DELETE templates and the INSERT templates (a template with a variable the solution leaves unbound
+\* yields nothing); all deletions are applied before all insertions.  DELETE WHERE { tps } is the form whose
+\* templates are its patterns; CLEAR empties the default graph.
+TermOf(x, m) == IF IsVar(x) THEN (IF x.v \in DOMAIN m THEN m[x.v] ELSE 0) ELSE x.c
+InstSet(tmpls, sols) ==
+  {tr \in {<<TermOf(tmpls[i].s, sols[j]), TermOf(tmpls[i].p, sols[j]), TermOf(tmpls[i].o, sols[j])>> : i \in DOMAIN tmpls, j \in DOMAIN sols} :
+     tr[1] # 0 /\ tr[2] # 0 /\ tr[3] # 0}
+Update(D, u) == LET sols == EvalGroup(D, u.where) IN (D \ InstSet(u.del, sols)) \cup InstSet(u.ins, sols)
+DeleteWhere(D, tps) == D \ InstSet(tps, EvalGroup(D, tps))
 \* ---- result forms.  A row is a sequence over the selected variables; an unbound variable is 0.
 RowOf(sel, m) == [i \in DOMAIN sel |-> IF sel[i] \in DOMAIN m THEN m[sel[i]] ELSE 0]
 Rows(D, q) == LET sols == EvalGroup(D, q.where) IN [i \in DOMAIN sols |-> RowOf(q.sel, sols[i])]
